@@ -50,9 +50,13 @@ func minimizeDeath(exe string, s *Script, sig string, tmp string) *Script {
 		}
 		return s.Property+"/"+execOutcome(exe, tmp, timeout) == sig
 	}
+	// confirmation gets three times the watchdog's limit: a run that is merely
+	// slow must end up as harness trouble, never as a reported hang
+	timeout = 3 * hangTimeout
 	if !test(s) {
 		return nil
 	}
+	timeout = hangTimeout
 	if strings.HasSuffix(sig, "/hang") {
 		timeout = 60 * time.Second // candidates: a legitimate run of a smaller script is far below this
 	}
